@@ -84,6 +84,8 @@ def build_cycle(c):
     for i, node in enumerate(nodes):
         nxt = nodes[(i + 1) % n]
         links = [nxt] * max(1, c.get("branch", 1))
+        if c.get("uniform"):
+            i = 0       # every member of the cycle looks the same: an == between two of them never terminates
         if isinstance(node, dict):
             node["a"] = i
             for j, l in enumerate(links):
@@ -303,8 +305,14 @@ def run_shard(spec, shard):
             n = r.choice([1, 1, 2, 3, 4])
             shape = {"cycle": {"kinds": [r.choice(["obj", "arr"]) for _ in range(n)], "branch": r.choice([1, 1, 2, 3]),
                                "entry": r.choice(["direct", "wrapped"])}}
+            if r.random() < 0.4:
+                shape["cycle"]["uniform"] = True
+                if r.random() < 0.5:
+                    shape["cycle"]["kinds"] = [shape["cycle"]["kinds"][0]] * n
         else:
             d = max(0, L + r.choice([-3, -2, -2, -1, -1, -1, 0, 0, 1, 2]) + (1 if below else 0))
+            if r.random() < 0.06:
+                d = L + r.choice([400, 1200, 3000])     # far beyond the limit (and beyond what the interpreter can recurse into)
             k = r.random()
             if k < 0.3:
                 kinds = ["obj"] * d
